@@ -255,7 +255,14 @@ func check(tb ev.TB, c gsim.Case) (labels []string, nontrivial bool) {
 					case f.off < 0 && !c.StartLast && d.off == 0:
 						ok = true
 					case f.off < 0 && c.StartLast:
-						ok = true // the end of the log at the time it was resolved; not reconstructible exactly
+						// the end of the log at the time it was resolved: not reconstructible exactly, but never below the
+						// records the partition held before the first member joined (a log only grows)
+						ok = true
+						for ti, tn := range res.Topics {
+							if tn == k.t && ti < len(c.Initial) && k.p < len(c.Initial[ti]) && d.off < int64(c.Initial[ti][k.p]) {
+								ok = false
+							}
+						}
 					}
 					if ok {
 						justified = true
